@@ -215,7 +215,7 @@ def work(arg: tuple) -> dict:
 
 
 def run(prop: str, tier: str, seed: int) -> dict:
-    fams = ['plain', 'switch', 'oneof', 'rec', 'mix', 'overlap'] + ([] if tier == 'quick' else ['plain7'])
+    fams = ['plain', 'switch', 'oneof', 'rec', 'mix', 'overlap', 'recx', 'switchx', 'oneofx'] + ([] if tier == 'quick' else ['plain7'])
     items = [(tier, 'corpus', sp) for sp in corpus.specs()]
     for f in fams:
         items += [(tier, f, sp) for sp in EN.family(f, tier)]
